@@ -178,6 +178,10 @@ def oracle(case, res, extra):
                 # domain of the property: non-negative port sizes
                 if any(E.sympy_ev(p.size, dict(env), salt) < 0 for p in node.ports.values()):
                     raise E.Undefined("negative size")
+                # … and non-negative ancilla counts (a parameter point that makes a routine use a negative number of scratch qubits is
+                # as meaningless as a negative register; sweep seed 4: `local_ancillae = L` at c.L = -2)
+                if "local_ancillae" in node.resources and E.sympy_ev(node.resources["local_ancillae"].value, dict(env), salt) < 0:
+                    raise E.Undefined("negative ancillae")
             if any(v < 0 for v in env.values()):
                 res.stats["points_with_a_negative_parameter_in_domain"] += 1
             if k == 0:
